@@ -1242,7 +1242,7 @@ class NamespaceManager(dict):
                             # printed; try the other namespaces instead
                             continue
                         #  create a QName with the namespace
-                        return namespace[local_part]
+                        return self._announced(namespace)[local_part]
         elif self._default:
             # create and return an identifier in the default namespace
             return self._default[qname]
